@@ -583,22 +583,24 @@ func init() {
 					for _, spec := range bad {
 						for _, op := range []string{"is", "as"} {
 							for _, pos := range positions {
-								src := pos.pre + "1 " + op + " " + spec + pos.post
-								c := lib.Compile(src)
-								r.Eval()
-								r.State("malformed|" + op + "|" + pos.name)
-								r.Nontrivial(src, c.Class())
-								if pos.name == "alone" {
-									r.Sample(core.W{"src": src, "outcome": c.Class()})
-								}
-								if c.Panic != nil {
-									r.Fail("compile|malformed|"+pos.name+"|"+c.Panic.Key(), core.W{"src": src})
-								} else if c.CompileErr == nil {
-									k := "compile|malformed-type-specifier-accepted|" + spec
-									if pos.name != "alone" {
-										k += "|" + pos.name
+								for _, operand := range []string{"1", "{}", "({})", "Patient.name", "'x'", "%context", "true"} {
+									src := pos.pre + operand + " " + op + " " + spec + pos.post
+									c := lib.Compile(src)
+									r.Eval()
+									r.State("malformed|" + op + "|" + pos.name)
+									r.Nontrivial(src, c.Class())
+									if pos.name == "alone" {
+										r.Sample(core.W{"src": src, "outcome": c.Class()})
 									}
-									r.Fail(k, core.W{"src": src, "position": pos.name})
+									if c.Panic != nil {
+										r.Fail("compile|malformed|"+pos.name+"|"+c.Panic.Key(), core.W{"src": src})
+									} else if c.CompileErr == nil {
+										k := "compile|malformed-type-specifier-accepted|" + spec
+										if pos.name != "alone" {
+											k += "|" + pos.name
+										}
+										r.Fail(k, core.W{"src": src, "position": pos.name})
+									}
 								}
 							}
 						}
